@@ -15,7 +15,7 @@ NA = {
 # id: (level, technique, level text, level note, design ref)
 CLAIMED = {
     "C09": ("exploration",
-            "deterministic simulation: seeded operation/clock-fault histories on the real Telomere under a sim lock and virtual clock, clause oracles + reference automaton",
+            "deterministic simulation: seeded operation/clock-fault histories on the real Telomere under a sim lock and virtual clock (clause oracles + reference automaton), plus 2-3 concurrent callers under the seeded line-granularity scheduler with a Wing-Gong linearizability check against the real lifecycle run sequentially",
             "Seeded search over call histories x virtual-clock moves (incl. backward jumps and limit boundaries) against the real Telomere; self-deadlock is an exact verdict from the simulated lock, non-return a deterministic line-budget verdict. Sampling, not proof.",
             "Trusts CPython, sys.settrace, the oracle in props/c09.py; reset() modelled as re-initialisation; the exact-boundary instant of time limits is not asserted.",
             "DESIGN 4 C09"),
@@ -25,7 +25,7 @@ CLAIMED = {
             "Trusts the oracle in props/c04.py; non-negative integer arguments; the over-capacity balance a failed spend's NADH top-up leaves behind is tolerated because no clause forbids it.",
             "DESIGN 4 C04"),
     "C03": ("exploration",
-            "deterministic simulation: seeded histories of registrations/calls/ceiling changes against the real Mitochondria and Nucleus with an adversarial scripted LLM provider; side-effect oracle evaluated inside the tool bodies",
+            "deterministic simulation: seeded histories of registrations/calls/ceiling changes against the real Mitochondria and Nucleus with an adversarial scripted LLM provider, plus caller/registrar tasks interleaved at line granularity by the seeded scheduler; side-effect oracle evaluated inside the tool bodies",
             "Seeded search over histories (register/re-register, metabolize on every pathway, execute_tool_call, transcribe_with_tools with a provider that requests forbidden/unknown tools forever, ceiling widened/narrowed, raising tool bodies); the oracle runs inside each fake tool body at the instant it executes. Sampling, not proof.",
             "Trusts the oracle in props/c03.py; a tool is forbidden only if outside both the constructed and the current ceiling; refusal-as-failure is demanded only where the tool call is the top-level request.",
             "DESIGN 4 C03"),
@@ -35,17 +35,17 @@ CLAIMED = {
             "Trusts the oracle in props/c06.py; S2 is qualified by 'votes that count under the strategy's own rule'; one listed finding (ratio strategies at custom threshold 1.0).",
             "DESIGN 4 C06"),
     "C07": ("fault_enumeration",
-            "deterministic simulation with fault enumeration: all 6 gate logics x 7 executor x 7 assessor behaviours (incl. raising agents) x cache on/off enumerated exhaustively, then seeded cache/clock histories under the virtual clock",
+            "deterministic simulation with fault enumeration: all 6 gate logics x 7 executor x 7 assessor behaviours (incl. raising agents) x cache on/off enumerated exhaustively, then seeded cache/clock histories under the virtual clock and overlapping requests from 2-3 tasks under the seeded line-granularity scheduler (per-request clauses + post-quiescence probe)",
             "The 588-cell verdict/fault table is enumerated completely in both tiers with fake executor/assessor agents against the real CoherentFeedForwardLoop; beyond it, seeded repeat/caching histories with TTL boundaries, backward clock jumps, prefix-colliding prompts and real agents on a starving budget.",
             "Trusts the oracle in props/c07.py; 'unknown verdict' is read as 'never counts as a permit'; the table direction is 'not blocked => table satisfied' as the statement gives it.",
             "DESIGN 4 C07"),
     "C08": ("exploration",
-            "deterministic simulation: seeded request-outcome/fault sequences x virtual-clock moves (below/at/above the recovery timeout, backward jumps) against the real circuit breaker; timed-automaton clause oracle on scripted verdicts, call counters and the shared budget",
+            "deterministic simulation: seeded request-outcome/fault sequences x virtual-clock moves (below/at/above the recovery timeout, backward jumps) against the real circuit breaker; timed-automaton clause oracle on scripted verdicts, call counters and the shared budget; plus overlapping requests from 2-3 tasks under the seeded line-granularity scheduler with the clauses that stay well-defined under overlap",
             "Seeded search over histories of {success, intentional block, executor failure, raising agent, cache hit, reset} interleaved with clock faults for thresholds 1..4; fakes spend from the real shared ATP_Store so 'spends nothing while open' is observable. Sampling, not proof.",
             "Trusts the oracle in props/c08.py; outcomes are classified from the scripted verdicts, not from LoopResult; UNKNOWN/DEFER mismatches are neutral.",
             "DESIGN 4 C08"),
     "C10": ("exploration",
-            "deterministic simulation: seeded filter/learn/forget/import/threshold/clock histories on the real Membrane (two instances) and InnateImmunity under the virtual clock against a reference model of signatures, blocked-content memory and the rate window",
+            "deterministic simulation: seeded filter/learn/forget/import/threshold/clock histories on the real Membrane (two instances) and InnateImmunity under the virtual clock against a reference model of signatures, blocked-content memory and the rate window; plus 2-3 tasks filtering through one shared rate-limited Membrane under the seeded line-granularity scheduler (window, audit and replay-memory clauses judged on invoke/return clock intervals)",
             "Seeded search over histories with rule changes and clock moves between filters of related inputs (case-perturbed, embedded, previously blocked), rate-limit windows in virtual time and inflammation cool-down. The 'for all input strings' clauses are only sampled from a generated pool (incl. lone surrogates, 100k inputs, deep JSON) and nothing stronger is claimed for them.",
             "Trusts the reference model in props/c10.py; case change is limited to single-character case mappings; input universality is not claimed.",
             "DESIGN 4 C10"),
